@@ -565,6 +565,33 @@ var ruleA5 = &Rule{
 											if qa == kV || canon(qa) == canon(kV) || sameFieldLoad(qa, kV) {
 												return true
 											}
+											// version read and script loop are sibling stages of one caller: compare the stream ids both receive there
+											if p, ok := qa.(*ssa.Parameter); ok && scanFn != loopFn {
+												if kp, ok := kV.(*ssa.Parameter); ok && kp.Parent() == loopFn {
+													for _, site := range callSitesOf(c, scanFn) {
+														F := site.Parent()
+														var qaF, kF ssa.Value
+														for i, pp := range scanFn.Params {
+															if pp == p && i < len(site.Common().Args) {
+																qaF = site.Common().Args[i]
+															}
+														}
+														for _, s2 := range callSitesOf(c, loopFn) {
+															if s2.Parent() != F {
+																continue
+															}
+															for i, pp := range loopFn.Params {
+																if pp == kp && i < len(s2.Common().Args) {
+																	kF = s2.Common().Args[i]
+																}
+															}
+														}
+														if qaF != nil && kF != nil && (qaF == kF || canon(qaF) == canon(kF) || sameFieldLoad(qaF, kF)) {
+															return true
+														}
+													}
+												}
+											}
 										}
 									}
 								}
